@@ -669,7 +669,7 @@ pub fn run_check(e: &Entry, tier: Tier, seed: u64) -> RunOutcome {
                 }
                 Err(err) => {
                     eprintln!("cannot replay {}: {err}", path.display());
-                    exit = exit.max(2);
+                    if exit == 0 { exit = 2; }
                 }
             }
         } else {
@@ -698,7 +698,7 @@ pub fn run_check(e: &Entry, tier: Tier, seed: u64) -> RunOutcome {
             }
             Err(err) => {
                 eprintln!("cannot replay {}: {err}", p.display());
-                exit = exit.max(2);
+                if exit == 0 { exit = 2; }
             }
         }
     }
@@ -750,7 +750,7 @@ pub fn run_check(e: &Entry, tier: Tier, seed: u64) -> RunOutcome {
             Ok(c) => children.push((s, c, out, cur)),
             Err(err) => {
                 eprintln!("cannot spawn shard: {err}");
-                exit = exit.max(2);
+                if exit == 0 { exit = 2; }
             }
         }
     }
@@ -781,13 +781,13 @@ pub fn run_check(e: &Entry, tier: Tier, seed: u64) -> RunOutcome {
                     Ok(c) => children.push((s, c, out, cur)),
                     Err(err) => {
                         eprintln!("cannot spawn release shard: {err}");
-                        exit = exit.max(2);
+                        if exit == 0 { exit = 2; }
                     }
                 }
             }
             _ => {
                 eprintln!("release-profile harness binary missing (run ./check setup)");
-                exit = exit.max(2);
+                if exit == 0 { exit = 2; }
             }
         }
     }
@@ -846,7 +846,7 @@ pub fn run_check(e: &Entry, tier: Tier, seed: u64) -> RunOutcome {
                 }
                 if let Some(err) = &st.infra_error {
                     eprintln!("shard {s}: {err}");
-                    exit = exit.max(2);
+                    if exit == 0 { exit = 2; }
                 }
                 total.merge(st);
             }
@@ -878,7 +878,7 @@ pub fn run_check(e: &Entry, tier: Tier, seed: u64) -> RunOutcome {
                     }
                     None => {
                         eprintln!("worker death not reproducible: inconclusive");
-                        exit = exit.max(2);
+                        if exit == 0 { exit = 2; }
                     }
                 }
             }
